@@ -150,6 +150,9 @@ theorem own_subset_flat {s : Schema} {vis : List String} {n : String} {e : Entit
 def Closed (s : Schema) (vis : List String) : Prop :=
   ∀ m ∈ vis, ∃ e, s.findE m = some e ∧ ∀ sup ∈ e.supers, sup ∈ vis
 
+/-- `b` is not a declared supertype of `a` -/
+def NotSuperOf (s : Schema) (a b : String) : Prop := ∀ e, s.findE a = some e → b ∉ e.supers
+
 /-- what one traversal step guarantees -/
 structure Step (s : Schema) (rank : String → Nat) (n : String) (vis vis' : List String) (h h' : List SA) : Prop where
   flat : h' = flat s vis'
@@ -157,6 +160,8 @@ structure Step (s : Schema) (rank : String → Nat) (n : String) (vis vis' : Lis
   mono : ∀ m ∈ vis, m ∈ vis'
   self : n ∈ vis'
   rank : ∀ m ∈ vis', m ∈ vis ∨ rank m ≤ rank n
+  nodup : vis.Nodup → vis'.Nodup
+  pw : vis.Pairwise (NotSuperOf s) → vis'.Pairwise (NotSuperOf s)
 
 theorem step_fold {s : Schema} {rank : String → Nat} (f : Nat)
     (ih : ∀ n vis, rank n < f → (s.findE n).isSome → Closed s vis →
@@ -166,7 +171,8 @@ theorem step_fold {s : Schema} {rank : String → Nat} (f : Nat)
     let vis' := L.foldl (fun v sup => inheritOrder s f sup v) vis
     L.foldl (fun acc sup => ctorArgs s f sup acc) (flat s vis) = flat s vis' ∧ Closed s vis' ∧
       (∀ m ∈ vis, m ∈ vis') ∧ (∀ sup ∈ L, sup ∈ vis') ∧
-      (∀ m ∈ vis', m ∈ vis ∨ ∃ sup ∈ L, rank m ≤ rank sup) := by
+      (∀ m ∈ vis', m ∈ vis ∨ ∃ sup ∈ L, rank m ≤ rank sup) ∧
+      (vis.Nodup → vis'.Nodup) ∧ (vis.Pairwise (NotSuperOf s) → vis'.Pairwise (NotSuperOf s)) := by
   induction L generalizing vis with
   | nil => simp_all
   | cons p ps ihL =>
@@ -175,8 +181,8 @@ theorem step_fold {s : Schema} {rank : String → Nat} (f : Nat)
     have rest := ihL (inheritOrder s f p vis) (fun sup hs => hL sup (by simp [hs])) st.closed
     simp only [List.foldl_cons]
     rw [st.flat]
-    obtain ⟨r1, r2, r3, r4, r5⟩ := rest
-    refine ⟨r1, r2, fun m hm => r3 m (st.mono m hm), ?_, ?_⟩
+    obtain ⟨r1, r2, r3, r4, r5, r6, r7⟩ := rest
+    refine ⟨r1, r2, fun m hm => r3 m (st.mono m hm), ?_, ?_, fun h => r6 (st.nodup h), fun h => r7 (st.pw h)⟩
     · intro sup hs
       rcases List.mem_cons.mp hs with rfl | hs
       · exact r3 _ st.self
@@ -201,7 +207,7 @@ theorem step_main {s : Schema} {rank : String → Nat} (wf : WF s rank) (f : Nat
       have := wf.supers n e hE sup hs
       exact ⟨this.1, by omega⟩
     have fold := step_fold f ih e.supers vis hsup hc
-    obtain ⟨f1, f2, f3, f4, f5⟩ := fold
+    obtain ⟨f1, f2, f3, f4, f5, f6, f7⟩ := fold
     by_cases hv : n ∈ vis
     · -- already placed: every push is rejected
       have hvis : inheritOrder s (f + 1) n vis = vis := by
@@ -227,7 +233,7 @@ theorem step_main {s : Schema} {rank : String → Nat} (wf : WF s rank) (f : Nat
       have hf := hfold e.supers vis hsups
       rw [hf] at f1
       rw [hvis]
-      refine ⟨?_, hc, fun m hm => hm, hv, fun m hm => Or.inl hm⟩
+      refine ⟨?_, hc, fun m hm => hm, hv, fun m hm => Or.inl hm, fun h => h, fun h => h⟩
       rw [ctorArgs_succ]
       simp only [hE]
       rw [f1]
@@ -237,13 +243,13 @@ theorem step_main {s : Schema} {rank : String → Nat} (wf : WF s rank) (f : Nat
           (e.supers.foldl (fun v sup => inheritOrder s f sup v) vis) ++ [n] := by
         rw [inheritOrder_succ]; simp [hv, hE]
       rw [hvis]
-      generalize hvis' : e.supers.foldl (fun v sup => inheritOrder s f sup v) vis = vis' at f1 f2 f3 f4 f5 ⊢
+      generalize hvis' : e.supers.foldl (fun v sup => inheritOrder s f sup v) vis = vis' at f1 f2 f3 f4 f5 f6 f7 ⊢
       have hn' : n ∉ vis' := by
         intro hm
         rcases f5 n hm with h1 | ⟨sup, hs, hr⟩
         · exact hv h1
         · have := (wf.supers n e hE sup hs).2; omega
-      refine ⟨?_, ?_, ?_, by simp, ?_⟩
+      refine ⟨?_, ?_, ?_, by simp, ?_, ?_, ?_⟩
       · rw [ctorArgs_succ]
         simp only [hE]
         rw [f1, flat_append]
@@ -275,6 +281,21 @@ theorem step_main {s : Schema} {rank : String → Nat} (wf : WF s rank) (f : Nat
             exact Or.inr (by omega)
         · have : m = n := by simpa using hm
           subst this; exact Or.inr (Nat.le_refl _)
+      · intro hnd
+        rw [List.nodup_append]
+        exact ⟨f6 hnd, by simp, by intro a ha b hb; simp at hb; subst hb; intro e; subst e; exact hn' ha⟩
+      · intro hpw
+        rw [List.pairwise_append]
+        refine ⟨f7 hpw, by simp, ?_⟩
+        intro a ha b hb
+        have : b = n := by simpa using hb
+        subst this
+        intro ea hea hmem
+        obtain ⟨e', hE', hs'⟩ := f2 a ha
+        rw [hea] at hE'
+        have : ea = e' := Option.some.inj hE'
+        subst this
+        exact hn' (hs' b hmem)
 
 theorem closed_nil (s : Schema) : Closed s [] := by intro m hm; simp at hm
 
@@ -321,5 +342,70 @@ theorem flat_filter (s : Schema) (vis : List String) :
     cases hE : s.findE m with
     | none => rfl
     | some e => exact own_filter e
+
+end StepModel.GenCxx
+
+namespace StepModel.GenCxx
+open Spec
+
+/-! ## emission order (`SCOPE_dfs`) -/
+
+theorem dfs_eq (s : Schema) (f : Nat) (n : String) (acc : List String) :
+    dfs s f n acc = inheritOrder s f n acc := by
+  induction f generalizing n acc with
+  | zero => rfl
+  | succ f ih =>
+    have hd : dfs s (f + 1) n acc =
+        if acc.contains n then acc else
+        match s.findE n with
+        | none => acc
+        | some e => (e.supers.foldl (fun a sup => dfs s f sup a) acc) ++ [n] := rfl
+    rw [hd, inheritOrder_succ]
+    have : (fun a sup => dfs s f sup a) = (fun v sup => inheritOrder s f sup v) := by
+      funext a sup; exact ih sup a
+    simp only [this]
+
+theorem emissionOrder_eq (s : Schema) (roots : List String) :
+    emissionOrder s roots = roots.foldl (fun v n => inheritOrder s (fuelOf s) n v) [] := by
+  unfold emissionOrder fuelOf
+  have : (fun acc n => dfs s (s.entities.length + 1) n acc) =
+      (fun v n => inheritOrder s (s.entities.length + 1) n v) := by
+    funext a n; exact dfs_eq s _ n a
+  rw [this]
+
+/-- facts about the emission order for any symbol-table iteration order `roots` of declared entities -/
+theorem emissionOrder_facts {s : Schema} {rank : String → Nat} (wf : WF s rank) (roots : List String)
+    (hr : ∀ n ∈ roots, (s.findE n).isSome) :
+    let ord := emissionOrder s roots
+    Closed s ord ∧ (∀ n ∈ roots, n ∈ ord) ∧ ord.Nodup ∧ ord.Pairwise (NotSuperOf s) := by
+  have hL : ∀ n ∈ roots, (s.findE n).isSome ∧ rank n < fuelOf s := by
+    intro n hn
+    have h := hr n hn
+    obtain ⟨e, hE⟩ := Option.isSome_iff_exists.mp h
+    exact ⟨h, wf.bound n e hE⟩
+  have := step_fold (fuelOf s) (step_main wf (fuelOf s)) roots [] hL (closed_nil s)
+  obtain ⟨_, f2, _, f4, _, f6, f7⟩ := this
+  simp only
+  rw [emissionOrder_eq]
+  exact ⟨f2, f4, f6 List.nodup_nil, f7 List.Pairwise.nil⟩
+
+theorem findE_mem {s : Schema} {n : String} {e : Entity} (h : s.findE n = some e) : e ∈ s.entities := by
+  unfold Schema.findE at h
+  exact List.mem_of_find?_eq_some h
+
+/-- with distinct entity names, looking an entity up by its own name finds it -/
+theorem findE_self {s : Schema} (hn : (s.entities.map (·.name)).Nodup) {e : Entity} (he : e ∈ s.entities) :
+    s.findE e.name = some e := by
+  unfold Schema.findE
+  generalize s.entities = l at hn he
+  induction l with
+  | nil => simp at he
+  | cons x xs ih =>
+    simp only [List.map_cons, List.nodup_cons] at hn
+    rcases List.mem_cons.mp he with rfl | hx
+    · simp
+    · have hne : x.name ≠ e.name := by
+        intro h; exact hn.1 (by rw [h]; exact List.mem_map_of_mem hx)
+      simp [hne, ih hn.2 hx]
 
 end StepModel.GenCxx
